@@ -371,7 +371,22 @@ def rule_bookkeeping_removed_before_drop(ctx):
     ctx.floor("C19.g drop traces", n, 4)
 
 
+def rule_commit_conflict_surfaces(ctx):
+    """C19.h = C13.c: when two sessions' transactions conflict the engine rejects the loser's COMMIT — that rejection reaches the
+    caller; only the engine's "no transaction is active" is answered with success."""
+    from .c13 import rule_no_tx_mapping as rule_commit_failure_reported
+
+    before = len(ctx.obligations)
+    nf = len(ctx.findings)
+    rule_commit_failure_reported(ctx)
+    for o in ctx.obligations[before:]:
+        o["rule"] = "C19.h"
+    for f in ctx.findings[nf:]:
+        f.rule = "C19.h"
+
+
 RULES = [
+    ("C19.h", rule_commit_conflict_surfaces, ("quick", "thorough")),
     ("C19.g", rule_bookkeeping_removed_before_drop, ("quick", "thorough")),
     ("C19.f", rule_bookkeeping_upserts, ("quick", "thorough")),
     ("C19.e", rule_temporary_stays_private, ("quick", "thorough")),
